@@ -201,12 +201,25 @@ HEADER = '''// generated by vlib/gen_match.py -- do not edit
 #include <cstring>
 #include <cmath>
 struct S { int a; int b; };
+// a user-written handle: constructible from nullptr and comparable with other handles, but with no comparison against
+// nullptr_t of its own (u != nullptr goes through the converting constructor)
+struct Hdl
+{
+  int* p = nullptr;
+  Hdl() = default;
+  Hdl(std::nullptr_t) {}
+  explicit Hdl(int* q) : p(q) {}
+  int& operator*() const { return *p; }
+  friend bool operator==(Hdl const& a, Hdl const& b) { return a.p == b.p; }
+  friend bool operator!=(Hdl const& a, Hdl const& b) { return a.p != b.p; }
+};
 struct MockC
 {
   MAKE_MOCK1(fi, void(int));
   MAKE_MOCK1(fp, void(int*));
   MAKE_MOCK1(fup, void(std::unique_ptr<int> const&));
   MAKE_MOCK1(fsp, void(std::shared_ptr<int>));
+  MAKE_MOCK1(fh, void(Hdl));
   MAKE_MOCK1(fs, void(S const&));
   MAKE_MOCK1(fstr, void(std::string const&));
   MAKE_MOCK1(fcs, void(char const*));
@@ -262,6 +275,9 @@ def emit_test_body(k, t, dom, e):
         L.append('  { auto m = %s; for (int i = 0; i < 6; ++i) { int* x = i ? &vals[i-1] : nullptr; G::out("r %d pm %%d %%d", i, trompeloeil::param_matches(m, std::ref(x)) ? 1 : 0); } }' % (e, k))
         L.append('  { auto m = %s; for (int i = 0; i < 6; ++i) { std::unique_ptr<int> x; if (i) x.reset(new int(vals[i-1])); G::out("r %d pmu %%d %%d", i, trompeloeil::param_matches(m, std::ref(x)) ? 1 : 0); } }' % (e, k))
         L.append('  { auto m = %s; for (int i = 0; i < 6; ++i) { std::shared_ptr<int> x; if (i) x = std::make_shared<int>(vals[i-1]); G::out("r %d pms %%d %%d", i, trompeloeil::param_matches(m, std::ref(x)) ? 1 : 0); } }' % (e, k))
+        if not has_kind(t, ('any',)):
+            L.append('  { auto m = %s; for (int i = 0; i < 6; ++i) { Hdl x = i ? Hdl(&vals[i-1]) : Hdl(nullptr); G::out("r %d pmh %%d %%d", i, trompeloeil::param_matches(m, std::ref(x)) ? 1 : 0); } }' % (e, k))
+            L.append('  { MockC mk; ALLOW_CALL(mk, fh(%s)); for (int i = 0; i < 6; ++i) { Hdl x = i ? Hdl(&vals[i-1]) : Hdl(nullptr); G::out("r %d callh %%d %%d", i, called([&]{ mk.fh(x); })); } }' % (e, k))
         L.append('  { MockC mk; ALLOW_CALL(mk, fp(%s)); for (int i = 0; i < 6; ++i) { int* x = i ? &vals[i-1] : nullptr; G::out("r %d call %%d %%d", i, called([&]{ mk.fp(x); })); } }' % (e, k))
         L.append('  { MockC mk; ALLOW_CALL(mk, fup(%s)); for (int i = 0; i < 6; ++i) { std::unique_ptr<int> x; if (i) x.reset(new int(vals[i-1])); G::out("r %d callu %%d %%d", i, called([&]{ mk.fup(x); })); } }' % (e, k))
         L.append('  { MockC mk; ALLOW_CALL(mk, fsp(%s)); for (int i = 0; i < 6; ++i) { std::shared_ptr<int> x; if (i) x = std::make_shared<int>(vals[i-1]); G::out("r %d calls %%d %%d", i, called([&]{ mk.fsp(x); })); } }' % (e, k))
@@ -457,7 +473,7 @@ def run(prop, tier, seed):
     if len(done - {9500}) < len(trees) and not (rc != 0 or to):
         v.inconclusive.append('only %d of %d tests ran' % (len(done), len(trees)))
     v.coverage = dict(evaluations=comparisons, distinct_nontrivial=len(nontriv),
-                      rule='one evaluation = one (matcher tree, value, application mode) comparison of the real matcher with the mathematical predicate; modes: param_matches on int / int* / unique_ptr / shared_ptr / struct / std::string / char const* (incl. null) / string_view sub-range of a longer buffer / std::string with an embedded NUL and as the parameter of a real mock call (accepted vs no-match report); distinct non-trivial = distinct tree that accepts some and rejects some values of its domain',
+                      rule='one evaluation = one (matcher tree, value, application mode) comparison of the real matcher with the mathematical predicate; modes: param_matches on int / int* / unique_ptr / shared_ptr / a user-written handle type / struct / std::string / char const* (incl. null) / string_view sub-range of a longer buffer / std::string with an embedded NUL and as the parameter of a real mock call (accepted vs no-match report); distinct non-trivial = distinct tree that accepts some and rejects some values of its domain',
                       samples=samples, trees=len(trees), fixed_trees=fixed, random_trees=len(trees) - fixed,
                       by_domain={d: sum(1 for x in trees if x[0] == d) for d in ('int', 'uc', 'sh', 'dbl', 'ptr', 'struct', 'str')},
                       exhaustive=False)
